@@ -3,7 +3,7 @@
 (* Record validation for C13 (code -> spec): every record is one call of   *)
 (* the real implementation; Expected(r) is the value Seqs defines.         *)
 (***************************************************************************)
-EXTENDS Seqs, Enc, Json, IOUtils
+EXTENDS Seqs, Enc, Fmt, Json, IOUtils
 
 Recs == ndJsonDeserialize(IOEnv.VERIF_RECS)
 VARIABLE i
@@ -73,6 +73,8 @@ Expected(r) ==
     [] r.op = "enumerate" -> Ok(VList([k \in 1..Len(r.s) |-> VTuple(<<VInt(r.n + k - 1), VInt(r.s[k])>>)]))
     [] r.op = "zip"     -> Ok(VList(MapSeq(LAMBDA row : VTuple(MapSeq(VInt, row)), Zip(r.ss))))
     [] r.op = "len"     -> Ok(VInt(Len(r.s)))
+    [] r.op = "format"  -> LET x == Format(r.s, r.args, r.kw) IN IF x.ok THEN Ok(VStr(x.v)) ELSE Fail
+    [] r.op = "interp"  -> LET x == Interp(r.s, r.x) IN IF x.ok THEN Ok(VStr(x.v)) ELSE Fail
     \* values are immutable / results are fresh: concatenating onto a slice must not disturb the value it was sliced from,
     \* nor the other operands of the same expression; extending one base twice must give independent results
     [] r.op = "slice_concat" -> Ok(VList(<<Wrap(r.ty, SubSeq(r.s, 1, r.k) \o r.x), Wrap(r.ty, r.s), Wrap(r.ty, SubSeq(r.s, r.k + 1, Len(r.s)))>>))
